@@ -15,6 +15,8 @@
      mptcore/event/reply_deferrable.c   metatype handles + deferred handles on one counter
      mptplot/rawdata_create.c, mptio/stream/stream_input.c   counted metatypes (clone = 0)
      mptcore/core.h reference<T>        copy / assign / move / set_instance / detach
+     mptplot/values/iterator_file.c     counted metatype; clone = new object when created by file name, else 0
+     mpt++/metatype_generic.cpp         metatype::generic: counted, clone = new object
 
    A pointer is an object id (index into [objs]); a handle slot is [option nat].
    [pend] is the multiset of handles held in LOCAL VARIABLES of the function being
@@ -55,19 +57,23 @@ Inductive kind :=
 | KReply    (* mpt_reply_deferrable *)
 | KRaw      (* mpt_rawdata_create *)
 | KStream   (* mpt_stream_input *)
-| KCxx.     (* reference<T>::type of mpt++ *)
+| KCxx      (* reference<T>::type of mpt++ *)
+| KIterFd   (* mpt_iterator_file(fd): no file name, cannot be cloned *)
+| KIterName (* mpt_iterator_filename(name): clone opens the file again *)
+| KXGen.    (* metatype::generic of mpt++ (held by reference<metatype>) *)
 
 Inductive cls := Counted | Unique | Static.
 
 Definition cls_of (k : kind) : cls :=
   match k with
-  | KBuf | KHBuf | KHCnt | KReply | KRaw | KStream | KCxx => Counted
+  | KBuf | KHBuf | KHCnt | KReply | KRaw | KStream | KCxx | KIterFd | KIterName | KXGen => Counted
   | KHUni | KGen | KMetaBuf | KCfg => Unique
   | KCfgTop => Static
   end.
 
 Definition is_buf (k : kind) : bool := match k with KBuf | KHBuf => true | _ => false end.
-Definition is_cxx (k : kind) : bool := match k with KCxx => true | _ => false end.
+Definition is_cxx (k : kind) : bool := match k with KCxx | KXGen => true | _ => false end.
+Definition is_xgen (k : kind) : bool := match k with KXGen => true | _ => false end.
 Definition is_reply (k : kind) : bool := match k with KReply => true | _ => false end.
 Definition is_raw (k : kind) : bool := match k with KRaw => true | _ => false end.
 Definition is_libbuf (k : kind) : bool := match k with KBuf => true | _ => false end.
@@ -237,7 +243,9 @@ Inductive op :=
 | XMove (s d : nat)                (* r[d] = std::move(r[s]) *)
 | XDetach (s d : nat)              (* p[d] = r[s].detach() *)
 | XSetInst (s d : nat)             (* r[d].set_instance(p[s]); p[s] = 0 *)
-| XDrop (d : nat).                 (* r[d].set_instance(0) *)
+| XDrop (d : nat)                  (* r[d].set_instance(0) *)
+| XGen (d : nat)                   (* r[d].set_instance(metatype::generic::create(type, ptr)) *)
+| XClone (s d : nat).              (* p[d] = r[s].instance()->clone() *)
 
 Inductive out := OX | OD | OE | ORet (n : N).
 
@@ -252,7 +260,7 @@ Definition kind_in_bank (k : kind) (b : nat) : bool :=
   | _ => false
   end.
 Definition creatable (k : kind) : bool :=
-  match k with KMetaBuf | KCxx => false | _ => true end.
+  match k with KMetaBuf | KCxx | KXGen => false | _ => true end.
 Definition is_none {A} (v : option A) : bool := match v with None => true | _ => false end.
 Definition kind_is (kd : nat -> option kind) (v : option nat) (p : kind -> bool) : bool :=
   match v with Some o => match kd o with Some k => p k | None => false end | None => false end.
@@ -290,6 +298,8 @@ Definition guard (hsl : list (option nat)) (kd : nat -> option kind) (hld : nat 
   | XDetach s d => (bank s =? 3) && (bank d =? 4) && is_none (sl d)
   | XSetInst s d => (bank s =? 4) && (bank d =? 3)
   | XDrop d => bank d =? 3
+  | XGen d => bank d =? 3
+  | XClone s d => (bank s =? 3) && (bank d =? 4) && kind_is kd (sl s) is_xgen && is_none (sl d)
   end.
 
 Definition kind_at (s : st) (o : nat) : option kind :=
@@ -333,9 +343,10 @@ Definition p_unref (s : st) (i : nat) : res (st * out) :=
 Definition p_clone (s : st) (o d : nat) : res (st * out) :=
   do x <- live s o;
   match okind x with
-  | KGen | KHUni | KCfg => let '(s1, id) := m_new s (okind x) None in Ok (m_put s1 d (Some id), OD)
+  | KGen | KHUni | KCfg | KIterName =>          (* fileClone: mpt_iterator_filename(d->name), a new object with count 1 *)
+      let '(s1, id) := m_new s (okind x) None in Ok (m_put s1 d (Some id), OD)
   | KMetaBuf => do '(s1, id) <- mk_metabuf s (oinner x); Ok (m_put s1 d (Some id), OD)
-  | _ => Ok (s, OE)            (* contextClone, rd_clone, streamClone: return 0; config top: EINVAL *)
+  | _ => Ok (s, OE)            (* contextClone, rd_clone, streamClone, fileClone without name: return 0; config top: EINVAL *)
   end.
 
 (* _mpt_metatype_wrap, type == TypeMetaRef, dest != 0 *)
@@ -447,8 +458,8 @@ Fixpoint unforce (s : st) (i n : nat) : res st :=
   end.
 
 (* reference<T> *)
-Definition x_new (s : st) (d : nat) : res (st * out) :=
-  let '(s1, n) := m_new s KCxx None in          (* new type: evaluated before the call *)
+Definition x_new (s : st) (k : kind) (d : nat) : res (st * out) :=
+  let '(s1, n) := m_new s k None in             (* new type / generic::create(): evaluated before the call *)
   let '(s2, old) := m_take s1 d in              (* set_instance: if (_ref) _ref->unref(); _ref = ref *)
   do s3 <- unref_opt s2 old;
   Ok (m_put s3 d (Some n), OD).
@@ -478,6 +489,11 @@ Definition x_detach (s : st) (si d : nat) : res (st * out) :=
 
 Definition x_drop (s : st) (d : nat) : res (st * out) := p_unref s d.
 
+(* metatype::generic::clone(): create(_type, _val, *_traits), a new object with count 1 *)
+Definition x_clone (s : st) (o d : nat) : res (st * out) :=
+  do x <- live s o;
+  let '(s1, id) := m_new s (okind x) None in Ok (m_put s1 d (Some id), OD).
+
 Definition exec (s : st) (o : op) : res (st * out) :=
   match o with
   | ONew k d => p_new s k d
@@ -505,13 +521,15 @@ Definition exec (s : st) (o : op) : res (st * out) :=
   | OSetInner m a => match slot s m with Some o => p_setinner s o a | None => Ok (s, OX) end
   | OForce i v => match slot s i with Some o => p_force s o v | None => Ok (s, OX) end
   | OUnforce => do s1 <- unforce s 0 (length (objs s)); Ok (s1, OD)
-  | XNew d => x_new s d
+  | XNew d => x_new s KCxx d
   | XAssign si d => x_assign s si d
   | XCopy si d => x_copy s si d
   | XMove si d => x_move s si d
   | XDetach si d => x_detach s si d
   | XSetInst si d => x_move s si d               (* set_instance(p); p = 0: same stores *)
   | XDrop d => x_drop s d
+  | XGen d => x_new s KXGen d
+  | XClone si d => match slot s si with Some o => x_clone s o d | None => Ok (s, OX) end
   end.
 
 Definition step (s : st) (o : op) : res (st * out) :=
